@@ -65,19 +65,19 @@ TEXT["C17"] = {
     "technique": "Lean 4 corollary of C01 + C02 + check-test exactness; three-way differential incl. in-search observation",
 }
 TEXT["C05"] = {
-    "level_text": "Kernel-checked over an abstract game: quiesce_contract and negamax_contract (fail-soft alpha-beta with depth-gated bound table, ordering heuristics and fail-hard quiescence returns a result satisfying the alpha-beta contract w.r.t. plain minimax Spec.V and keeps every table record a true claim), order_is_permutation (ordering only permutes), find_best_move_value (iterative deepening from a sound table: reported score equals the minimax value inside the window and has the same won/lost class beyond it; the returned move is legal and attains the value). Hypotheses exactly as the property scopes them: completed search (no poll returned true), no record from a deeper search reused (instrumented), no hash collision on visited positions, finite quiescence. Two machine-checked counterexamples document why the window hypothesis and the class comparison are needed. The chess instance is tied to search.rs by comparing score, move, node counts, poll counts and a digest of the whole table after every search.",
+    "level_text": "Kernel-checked over an abstract game: quiesce_contract and negamax_contract (fail-soft alpha-beta with depth-gated bound table, ordering heuristics and fail-hard quiescence returns a result satisfying the alpha-beta contract w.r.t. plain minimax Spec.V and keeps every table record a true claim), order_is_permutation (ordering only permutes), find_best_move_value (iterative deepening from a sound table: reported score equals the minimax value inside the window and has the same won/lost class beyond it; the returned move is legal and attains the value). Hypotheses exactly as the property scopes them: completed search (no poll returned true), no record from a deeper search reused (instrumented), no hash collision on visited positions, finite quiescence. Two machine-checked counterexamples document why the window hypothesis and the class comparison are needed. The chess instance is tied to search.rs by comparing score, move, node counts, poll counts and a digest of the whole table after every search. Depth-ranked forms (find_best_move_value_ranked/_horizon) make the collision hypothesis satisfiable for real chess; chess_find_best_move_value instantiates it. Props/C05Range.lean: the score arithmetic of the whole search stays inside i32/u8 (negamax_in_range, find_best_move_in_range, searches_in_range from the fresh state) and a machine-integer copy of the search with wrapping arithmetic equals the Int model (find_best_move_i32_eq_int, uci_go_i32_eq_int), so modelling i32 by Int is faithful; the one way to break it (a cached i32::MIN) is exhibited.",
     "design_ref": "DESIGN.md section 6, C05",
     "level_note": "Trusted: Lean kernel, standard axioms; HashMap/Vec/stable sort modelled; HashInj and QFinite are hypotheses; model fidelity as explored (node-count-exact tie).",
     "technique": "Lean 4 soundness proof of alpha-beta + TT + iterative deepening vs minimax (induction on depth and move list) + node-count-exact differential",
 }
 TEXT["C06"] = {
-    "level_text": "Kernel-checked for every deadline oracle (any poll may be the first to return true): the repetition stack after find_best_move is exactly what it was (repetition_balanced_findBestMove), every transposition-table store happens while no poll has yet returned true (interrupted_search_stores_nothing via a ghost-instrumented copy of the search proved equal to it), so with C05's contract every record left behind is the result of a completed sub-search; a search whose first poll is already true changes nothing at all. The defect named by the property file (interrupted node cached) was reproduced by this check on the pinned code and repaired by a fix: commit.",
+    "level_text": "Kernel-checked for every deadline oracle (any poll may be the first to return true): the repetition stack after find_best_move is exactly what it was (repetition_balanced_findBestMove), every transposition-table store happens while no poll has yet returned true (interrupted_search_stores_nothing via a ghost-instrumented copy of the search proved equal to it), so with C05's contract every record left behind is the result of a completed sub-search; a search whose first poll is already true changes nothing at all. The defect named by the property file (interrupted node cached) was reproduced by this check on the pinned code and repaired by a fix: commit. Props/C06Full.lean: later_search_true_value — after ANY finite list of searches, each completed or interrupted at any poll, a later completed search satisfies the C05 conclusion (minimax value, legal value-attaining move) and the repetition stack is unchanged; negamax_preserves_ttsound / findBestMove_preserves_ttsound: the table stays sound on every run, interrupted or not. Props/C06Guard.lean: the model WITHOUT the post-loop guard of the fix: commit leaves a false record that makes the next completed search report -5 instead of 9 (unguarded_interruption_spoils_later_search), the guarded model answers 9 on the same sequence.",
     "design_ref": "DESIGN.md section 6, C06",
     "level_note": "Trusted: as C05; the clock is abstracted to the poll at which it first reports expiry.",
     "technique": "Lean 4 invariant proofs over all deadline oracles (ghost-state store log) + exhaustive node-budget sweep with table audit against minimax",
 }
 TEXT["C07"] = {
-    "level_text": "Kernel-checked for every position, deadline and prior state: after the first poll that returns true no further node is entered (no_new_work_after_stop), the oracle is monotone along the run, every loop breaks at its next poll, and the number of polls after expiry is bounded by the recursion depth (bounded_unwinding). What a model cannot exhibit — the wall-clock cost of the unwinding and of the node in flight — is measured black-box on explosive positions against a fixed 400 ms bound.",
+    "level_text": "Kernel-checked for every position, deadline and prior state: after the first poll that returns true no further node is entered (no_new_work_after_stop), the oracle is monotone along the run, every loop breaks at its next poll, and the number of polls after expiry is bounded by the recursion depth (bounded_unwinding). What a model cannot exhibit — the wall-clock cost of the unwinding and of the node in flight — is measured black-box on explosive positions against a fixed 400 ms bound. Props/C07Dense.lean: polls_dense — in every run at most 2 nodes are entered between two consecutive polls (before the first, after the last), the constant is attained; work_after_deadline — from any point at which the oracle has become true at most 2 nodes are entered in the rest of the run; node_budget_overshoot — under a deadline at the n-th node the whole search enters at most n + 1 nodes.",
     "design_ref": "DESIGN.md section 6, C07",
     "level_note": "Proof of the work bound; latency observed, not proved.",
     "technique": "Lean 4 invariant proof (no node after stop) + hook counters under every node/poll deadline + black-box latency",
@@ -89,7 +89,7 @@ TEXT["C08"] = {
     "technique": 'Lean 4 invariant proof over the iterative-deepening loop + alpha-beta contract (C05) + rules-judged differential',
 }
 TEXT["C03"] = {
-    "level_text": "Kernel-checked over the abstract game, for EVERY deadline oracle (incl. a zero budget), every depth (incl. 0) and every earlier history of searches: the transposition table only ever holds moves that are legal in the position they are stored for (tt_move_legal_invariant), the answer of find_best_move is a legal move of the position searched, and it is 'no move' exactly when the position has no legal move (bestmove_legal, bestmove_none_iff); handle_go prints exactly one bestmove line. With C01 'legal for the generator' is 'legal under the rules'. The zero-budget defect (bestmove 0000 with legal moves) was reproduced and repaired by a fix: commit. Black-box runs check the real binary's bestmove lines against the spec's legal-move sets incl. real clocks.",
+    "level_text": "Kernel-checked over the abstract game, for EVERY deadline oracle (incl. a zero budget), every depth (incl. 0) and every earlier history of searches: the transposition table only ever holds moves that are legal in the position they are stored for (tt_move_legal_invariant), the answer of find_best_move is a legal move of the position searched, and it is 'no move' exactly when the position has no legal move (bestmove_legal, bestmove_none_iff); handle_go prints exactly one bestmove line. With C01 'legal for the generator' is 'legal under the rules'. The zero-budget defect (bestmove 0000 with legal moves) was reproduced and repaired by a fix: commit. Black-box runs check the real binary's bestmove lines against the spec's legal-move sets incl. real clocks. ENGINE LEVEL (Props/C03Engine.lean): every_go_answered_legally — for every command script, the bestmove lines of the transcript are in order-preserving one-to-one correspondence with the go commands executed, each carries a move legal under the rules for the board set at that moment or 0000 exactly at mate/stalemate, and no other line starts with bestmove — whatever was searched earlier in the same process (engine invariant EngOK preserved by every command), under 'equal keys on visited boards imply equal move sets' (implied by collision-freeness) and validity of the boards set by FENs. CHESS LEVEL (Props/ChessSearch.lean): chess_bestmove_legal, chess_handleGo_bestmove. The hash hypothesis is stated on depth-ranked families (positions within D plies), which is satisfiable for real chess.",
     "design_ref": "DESIGN.md section 6, C03",
     "level_note": "Trusted: as C05; HashInj hypothesis (necessary: counterexample in the agent report recorded in DESIGN.md).",
     "technique": "Lean 4 invariant proof over all deadline oracles and histories + in-process deadline sweep + black-box scripts",
